@@ -200,6 +200,32 @@ func runHistory(dir string, seed uint64, spec PropSpec, shipped string) (*Case, 
 		}
 		emit(&Op{Kind: "cli", Cli: &CliOp{Cmd: "new"}})
 		emit(obsOp())
+		if r.Chance(1, 4) {
+			// a partition life cycle that random commands rarely complete: system partition(s),
+			// promotion in a later second (so modification and creation times differ), inspection
+			np := 1 + r.Intn(2)
+			for k := 0; k < np; k++ {
+				pt := "1"
+				if k == 1 && r.Chance(1, 2) {
+					pt = "2"
+				}
+				emit(&Op{Kind: "cli", Cli: &CliOp{Cmd: "add", Flags: map[string]string{"datatype": "4", "parttype": pt,
+					"partfs": fmt.Sprint(1 + r.Intn(5)), "partarch": fmt.Sprint(1 + r.Intn(12))}, Data: DataSpec{Lit: r.Bytes(1 + r.Intn(40))}}})
+				emit(obsOp())
+			}
+			for k := r.Intn(3); k > 0; k-- {
+				emit(&Op{Kind: "cli", Cli: g.cliNext(inspect(e.f))})
+				emit(obsOp())
+			}
+			emit(&Op{Kind: "cli", Cli: &CliOp{Cmd: "setprim", Arg: "1", Later: true}})
+			emit(obsOp())
+			for id := 1; id <= np; id++ {
+				emit(&Op{Kind: "cli", Cli: &CliOp{Cmd: "info", Arg: fmt.Sprint(id)}})
+			}
+			emit(&Op{Kind: "cli", Cli: &CliOp{Cmd: pick(r, []string{"header", "list"})}})
+			g.cliFocus = ""
+			g.count("cli:partition-life-cycle")
+		}
 		n := 2 + r.Intn(spec.Profile.MaxOps)
 		for k := 0; k < n; k++ {
 			emit(&Op{Kind: "cli", Cli: g.cliNext(inspect(e.f))})
